@@ -52,6 +52,7 @@ func Main(prop, tier string, rest []string) int {
 			e.Replay = rest[i+1]
 		}
 	}
+	abortFn = e.Run.TooMany
 	def.fn(e)
 	return e.Run.Finish()
 }
